@@ -246,6 +246,91 @@ func ruleSCVarProtection() check.Rule {
 	}
 }
 
+// CONSISTENT-PROTECTION/helpers: state handed to a helper by pointer.
+func ruleHelperPointerProtection() check.Rule {
+	return check.Rule{
+		Name: "CONSISTENT-PROTECTION/helpers",
+		Doc:  "for every helper function of package ro that receives a pointer to an operator's state and touches it from callbacks (function literals): if any access through that pointer is made with a lock held, every access through it (in the helper's callbacks) holds that same lock - the lock belief the code itself states; the caller's accesses to the variable are checked by CONSISTENT-PROTECTION/operators",
+		Run: func(c *check.Ctx) {
+			m := c.M
+			h := newHeldDB(m)
+			p := m.Obj.Ro
+			info := p.TypesInfo
+			scs := scLits(m)
+			for _, f := range p.Syntax {
+				for _, d := range f.Decls {
+					fd, ok := d.(*ast.FuncDecl)
+					if !ok || fd.Body == nil || fd.Recv != nil {
+						continue
+					}
+					// pointer parameters to plain (non-synchronisation) state
+					params := map[*types.Var]bool{}
+					for _, pv := range model.FlattenParams(info, fd.Type.Params) {
+						if pv == nil {
+							continue
+						}
+						pt, isPtr := pv.Type().Underlying().(*types.Pointer)
+						if !isPtr || isSyncSafeType(pv.Type()) || isSyncSafeType(pt.Elem()) {
+							continue
+						}
+						if _, isStruct := pt.Elem().Underlying().(*types.Struct); isStruct {
+							continue // objects with their own methods/locking
+						}
+						params[pv] = true
+					}
+					if len(params) == 0 {
+						continue
+					}
+					_ = scs
+					accs := accessesOf(m, p, h, fd, params)
+					for v, as := range accs {
+						// accesses through the pointer inside callbacks only
+						var in []varAccess
+						for _, a := range as {
+							if a.fn != ast.Node(fd) {
+								if _, isStar := m.Parent(p, a.node).(*ast.StarExpr); isStar {
+									in = append(in, a)
+								}
+							}
+						}
+						if len(in) < 2 {
+							continue
+						}
+						written := false
+						var belief string
+						for _, a := range in {
+							if a.write {
+								written = true
+							}
+							for k := range a.held {
+								if belief == "" || k < belief {
+									belief = k
+								}
+							}
+						}
+						if !written || belief == "" {
+							continue
+						}
+						c.Inc("helper_pointer_states", 1)
+						key := fmt.Sprintf("ro.%s/ptr-%s", fd.Name.Name, v.Name())
+						bad := false
+						for _, a := range in {
+							if !a.held[belief] {
+								bad = true
+								c.Violation(key, a.node.Pos(), "%s through *%s without %s, which the other accesses in this helper hold: the callbacks of different sources run concurrently and race on the caller's state", rw(a), v.Name(), lockShort(belief))
+								break
+							}
+						}
+						if !bad {
+							c.OK(key, v.Pos(), "all %d accesses through *%s in the helper's callbacks hold %s", len(in), v.Name(), lockShort(belief))
+						}
+					}
+				}
+			}
+		},
+	}
+}
+
 func rw(a varAccess) string {
 	switch {
 	case a.atomic:
